@@ -1517,7 +1517,10 @@ class System(BaseModel, Serializable):
         prev_cands = {comp.name: IndexSet() for comp in self.components}  # empty candidate sets
 
         # Add cumulative training costs
-        for train_res, active_sets, cand_sets, misc_coeff_train, misc_coeff_test in self.simulate_fit():
+        for i, (train_res, active_sets, cand_sets, misc_coeff_train, misc_coeff_test) in enumerate(self.simulate_fit()):
+            if i >= idx:
+                break  # only account for the first `idx` iterations
+
             comp = train_res['component']
             alpha = train_res['alpha']
             beta = train_res['beta']
